@@ -416,6 +416,98 @@ pub async fn run_net_scenario(sc: &Value, workdir: &str) -> Vec<Value> {
                 }
                 out.push(json!({"ev":"reset_burst","name":nm,"n":done}));
             }
+            "mt_flood" => {
+                // n raw clients write k tagged messages each, concurrently from their own tasks on the multi-threaded runtime,
+                // in random chunks; the socket's recv results are logged against a global order (a message is logged as written
+                // BEFORE its first byte is sent, so a recv can never precede it in the trace); TraceDelivery judges the trace
+                if sock.is_none() {
+                    continue;
+                }
+                let text = names.get(&nm).cloned().unwrap_or_default();
+                let n = op.get("clients").and_then(|v| v.as_u64()).unwrap_or(3) as i64;
+                let kmsgs = op.get("msgs").and_then(|v| v.as_u64()).unwrap_or(20) as usize;
+                let seed = op.get("seed").and_then(|v| v.as_u64()).unwrap_or(1);
+                let log: std::sync::Arc<std::sync::Mutex<Vec<Value>>> = Default::default();
+                let mut handles = vec![];
+                let mut ready = 0;
+                for c in 1..=n {
+                    let Ok(Ok(raw)) = tokio::time::timeout(SETTLE, raw_connect(&text)).await else { continue };
+                    let mut cl = Client { raw, inbuf: vec![], handshaken: false };
+                    // handshake with an announced identity so that ROUTER labels are known
+                    let ident = format!("mt{}", c).into_bytes();
+                    let mut hello = rc::greeting();
+                    hello.extend(rc::ready(peer_type_for(&stype), Some(&ident)));
+                    if cl.raw.write_all(&hello).await.is_err() || !fill(&mut cl, 66, SETTLE).await {
+                        continue;
+                    }
+                    ready += 1;
+                    log.lock().unwrap().push(json!({"ev":"attach_ret","c":c,"res":"ok","id":rc::fdesc(&ident),"auto":false}));
+                    let log2 = log.clone();
+                    let st = stype.clone();
+                    handles.push(tokio::spawn(async move {
+                        let mut rng = crate::codec::Lcg(seed.wrapping_mul(7919).wrapping_add(c as u64));
+                        for j in 1..=kmsgs {
+                            let tag = format!("c{}m{}", c, j).into_bytes();
+                            let mut frames = app_msg(&st, &tag);
+                            if st != "XPUB" && rng.below(3) == 0 {
+                                frames.push(vec![b'z'; [0usize, 1, 255, 256, 9000][rng.below(5) as usize]]);
+                                frames.push(tag.clone());
+                            }
+                            let bytes = rc::enc_msg(&frames);
+                            log2.lock().unwrap().push(json!({"ev":"peer_wrote","c":c,"m":rc::mdesc(&frames)}));
+                            let mut off = 0;
+                            while off < bytes.len() {
+                                let lim = if rng.below(4) == 0 { 7 } else { 4000 };
+                                let step = (1 + rng.below(lim) as usize).min(bytes.len() - off);
+                                if cl.raw.write_all(&bytes[off..off + step]).await.is_err() {
+                                    return cl;
+                                }
+                                off += step;
+                                if rng.below(5) == 0 {
+                                    tokio::task::yield_now().await;
+                                }
+                            }
+                            if rng.below(10) == 0 {
+                                tokio::time::sleep(Duration::from_millis(rng.below(3))).await;
+                            }
+                        }
+                        cl
+                    }));
+                }
+                // the application: recv until everything announced has been seen, or nothing arrives for a while
+                let total = ready as usize * kmsgs;
+                let mut got = 0usize;
+                let hard = tokio::time::Instant::now() + Duration::from_secs(60);
+                let mut pending_at_end = false;
+                while got < total && tokio::time::Instant::now() < hard {
+                    log.lock().unwrap().push(json!({"ev":"recv_call"}));
+                    let f = sock.as_mut().unwrap().recv().unwrap();
+                    match tokio::time::timeout(Duration::from_secs(5), f).await {
+                        Ok(Ok(m)) => {
+                            got += 1;
+                            log.lock().unwrap().push(json!({"ev":"recv_ret","res":"ok","m":rc::mdesc(&from_msg(&m))}));
+                        }
+                        Ok(Err(e)) => log.lock().unwrap().push(json!({"ev":"recv_ret","res":"err","err":errkind(&e).0})),
+                        Err(_) => {
+                            // writers done and nothing for 5 s: quiescent with a recv pending
+                            if handles.iter().all(|h| h.is_finished()) {
+                                pending_at_end = true;
+                                break;
+                            }
+                        }
+                    }
+                }
+                let mut k2 = 100;
+                for h in handles {
+                    if let Ok(cl) = h.await {
+                        k2 += 1;
+                        clients.insert(k2, cl);
+                    }
+                }
+                let mut l = log.lock().unwrap();
+                out.append(&mut l);
+                out.push(json!({"ev":"quiescent","pending": if pending_at_end || got < total { "recv" } else { "none" },"woken_since_poll":false,"mt":true,"got":got,"total":total}));
+            }
             "serve" => {
                 // harness-side listener the socket will connect out to
                 let l = TcpListener::bind("127.0.0.1:0").await.expect("bind");
